@@ -51,6 +51,15 @@ RULES = [
      "", 1, "R6: converting assignment template deleted; body identical to operator=(const Ptr&), which is verified"),
     ("include/nstd/RefCount.hpp", "regex", r"    template <class D> bool operator[=!]=\([^\n]*\n", "", 4,
      "R6: comparison templates deleted (one-line pointer comparisons, not part of C09)"),
+    ("src/Socket/Server.cpp", "literal", "ssize sent = client.send(client._sendBuffer, client._sendBuffer.size());",
+     "const Buffer& nvSendBuffer = client._sendBuffer; const byte* nvSendData = nvSendBuffer; ssize sent = client.send(nvSendData, client._sendBuffer.size());", 1,
+     "R8: goto-cc does not apply the user-defined conversion Buffer -> const byte* to a call argument; "
+     "the conversion (operator const byte*() const, returns bufferStart) is applied in an initialisation instead"),
+    ("src/Socket/Server.cpp", "literal", "client._callback->onClosed();", "nv_cb_onClosed(client._callback);", 2,
+     "R9: cbmc 6.11 aborts on C++ virtual dispatch (boolbv_width: nil type); the callback invocation is replaced by a recorder hook "
+     "with the same receiver (extern \"C\" void nv_cb_onClosed(void*)); only the occurrence inside the write-ready branch is sliced"),
+    ("src/Socket/Server.cpp", "literal", "client._callback->onWrite();", "nv_cb_onWrite(client._callback);", 1,
+     "R9: as above for onWrite"),
     ("src/String.cpp", "literal", "  char* dest = result;\n", "  char* dest = result.nvMutable();\n", 1,
      "R4: call site of the renamed conversion operator (String::fromHex)"),
     ("src/String.cpp", "literal", "    char* out = (char*)result;\n", "    char* out = result.nvMutable();\n", 1,
@@ -68,6 +77,18 @@ SLICES = [
      ["String String::fromHex(const byte* data, usize size)", "String String::fromBase64(const String& data)"],
      "#include <nstd/String.hpp>\n", ["String::EmptyData String::emptyData;"]),
 ]
+
+
+def _extract_between(text, start_marker, end_marker, fname):
+    """verbatim text from the line containing start_marker up to (excluding) the line containing end_marker"""
+    if text.count(start_marker) != 1:
+        raise RuntimeError("slice anchor lost in %s: %r" % (fname, start_marker))
+    i = text.rfind("\n", 0, text.index(start_marker)) + 1
+    j = text.find(end_marker, i)
+    if j < 0:
+        raise RuntimeError("slice anchor lost in %s: %r" % (fname, end_marker))
+    j = text.rfind("\n", 0, j) + 1
+    return text[i:j]
 
 
 def _extract_function(text, first_line, fname):
@@ -116,8 +137,41 @@ def _extract_function(text, first_line, fname):
     raise RuntimeError("unbalanced braces slicing %r in %s" % (first_line, fname))
 
 
+def _slice_server(tree, fired):
+    """Server.cpp: class Server::Private (definition), ClientImpl::write/read/suspend/resume, and the
+    write-ready branch of Server::Private::run() wrapped VERBATIM into a synthetic member function
+    nv_write_ready(ClientImpl&) -- 'continue' keeps its meaning inside do { } while(0).  One
+    declaration line is added to the class text for that member.  Everything else is dropped."""
+    src = "src/Socket/Server.cpp"
+    text = open(os.path.join(tree, src)).read()
+    cls = _extract_function(text, "class Server::Private", src).rstrip("\n") + ";\n"
+    hook = "  void run();\n"
+    if cls.count(hook) != 1:
+        raise RuntimeError("slice anchor lost in %s: %r" % (src, hook))
+    cls = cls.replace(hook, hook + "  void nv_write_ready(ClientImpl &client); // added by the slicer: carrier of the write-ready branch of run()\n")
+    funcs = [_extract_function(text, f, src) for f in (
+        "bool Server::Private::ClientImpl::write(const byte *data, usize size, usize *postponed)",
+        "bool Server::Private::ClientImpl::read(byte *buffer, usize maxSize, usize &size)",
+        "void Server::Private::ClientImpl::suspend()",
+        "void Server::Private::ClientImpl::resume()")]
+    branch = _extract_between(text, "      if (!client._sendBuffer.isEmpty())", "    else if (pollEvent.flags & Socket::Poll::acceptFlag)", src)
+    # the branch ends with its 'continue;' and the closing brace of the else-if block
+    k = branch.rfind("      continue;\n")
+    if k < 0:
+        raise RuntimeError("slice anchor lost in %s: write-ready branch" % src)
+    branch = branch[:k + len("      continue;\n")]
+    carrier = "void Server::Private::nv_write_ready(ClientImpl &client)\n{\n  do\n  {\n" + branch + "  } while(0);\n}\n"
+    prelude = "\n".join("#include <nstd/%s>" % h for h in (
+        "Socket/Server.hpp", "Socket/Socket.hpp", "MultiMap.hpp", "PoolList.hpp", "HashSet.hpp", "Time.hpp", "Buffer.hpp",
+        "Error.hpp", "Mutex.hpp", "Future.hpp")) + "\nextern \"C\" void nv_cb_onClosed(void* callback);\nextern \"C\" void nv_cb_onWrite(void* callback);\n\n"
+    open(os.path.join(tree, "src/Socket/Server.write.slice.cpp"), "w").write(prelude + cls + "\n" + "\n".join(funcs) + "\n" + carrier)
+    fired.append({"file": src, "kind": "slice", "pattern": "class Server::Private; ClientImpl::write/read/suspend/resume; write-ready branch of run()",
+                  "count": 6, "why": "function slice -> src/Socket/Server.write.slice.cpp (verbatim texts; one member declaration added; rest dropped)"})
+
+
 def apply(tree):
     fired = _apply_rules(tree)
+    _slice_server(tree, fired)
     for (src, out, firsts, prelude, lines) in SLICES:
         text = open(os.path.join(tree, src)).read()
         for l in lines:
